@@ -489,7 +489,7 @@ pub fn c03_str(ctx: &mut Ctx, log: &mut Log, im: &mut Impl, or: &mut Oracle) {
             let Some(mut d) = start_stream_parser(log, im, b, mc, case.id, case.role, 1, &[], "C03") else { continue };
             let mut pos = 0; let streams = role_streams(case.role);
             let mut outcome = String::from("eof");
-            let mut guard = 0;
+            let mut guard = 0; let mut no_room = 0;
             loop {
                 guard += 1; if guard > 100_000 { or.fail("draining schedule does not terminate".into(), log.replay_block(), "C03:str-hang".into()); break; }
                 let mut stuck = false;
@@ -506,6 +506,9 @@ pub fn c03_str(ctx: &mut Ctx, log: &mut Log, im: &mut Impl, or: &mut Oracle) {
                 if stuck { outcome = "stuck-no-input-space".into(); break; }
                 if let Some(e) = d.last_err.clone() { outcome = format!("err:{e}"); break; }
                 let n = if pos < wire.len() { ch.next(&mut rng, pos, wire.len() - pos, d.free.max(1)).min(d.free) } else { 0 };
+                // no room to feed although input remains, repeatedly (e.g. with no active stream, where every call reports `end`):
+                // the parser is stuck on a unit larger than its buffer — an outcome, not a hang of any call
+                if n == 0 && pos < wire.len() { no_room += 1; if no_room > 8 { outcome = "stuck-no-input-space".into(); break; } } else { no_room = 0; }
                 let ok = d.parse(log, im, or, &wire[pos..pos + n], None);
                 pos += n;
                 if d.panicked { outcome = "panic".into(); break; }
